@@ -261,6 +261,8 @@ static NOATIME_PREFIX: Mutex<Option<Vec<u8>>> = Mutex::new(None);
 pub fn set_participant(tid: i32) {
     TID.with(|t| t.set(tid));
     OP.with(|o| o.set(0));
+    // (a participant section is at most one operation unless `set_op` says otherwise: the runaway guard counts per section)
+    OP_EVENTS.with(|c| c.set(0));
     MY_GEN.with(|g| g.set(GENERATION.load(SeqCst)));
 }
 /// Turns every current participant thread into a zombie.
